@@ -48,11 +48,9 @@ def insertManyLoop (now : Int) (ordered : Bool) :
     match insertDoc now c d with
     | .ok (c', id) => insertManyLoop now ordered rest (idx + 1) c' (ids ++ [id]) errs (n + 1)
     | .error e =>
-      -- a rejected insert still consumed a generated id and ran the expiry pass
-      let c0 : Coll := match d with
-        | .doc fs => if dhas "_id" fs then c else { c with nextOid := c.nextOid + 1 }
-        | _ => c
-      let c1 := match expire now c0 with | .ok x => x | .error _ => c0
+      -- a rejected insert still consumed a generated id, ran the expiry pass, and set the
+      -- created flag when it had already stored the document
+      let c1 := insertRejected now c d
       if e.isWriteError then
         let errs' := errs ++ [.doc [("index", .int idx), ("code", errCode e)]]
         if ordered then insertManyDone c1 ids errs' n
@@ -88,11 +86,7 @@ def stepColl (cfg : Cfg) (now : Int) (c : Coll) (op : Val) : Coll × Out :=
      | .doc _ =>
        (match insertDoc now c d with
         | .ok (c', id) => (c', .val id)
-        | .error e =>
-          let c0 : Coll := match d with
-            | .doc fs => if dhas "_id" fs then c else { c with nextOid := c.nextOid + 1 }
-            | _ => c
-          ((match expire now c0 with | .ok x => x | .error _ => c0), .err e))
+        | .error e => (insertRejected now c d, .err e))
      | _ => (c, .err .typeErr))
   | .arr [.str "insert_many", .arr ds, ordered] =>
     if ds.isEmpty then (c, .err .typeErr)
